@@ -356,7 +356,7 @@ fn pending_funding_owed(w: &World, is_long_token: bool) -> BigInt {
     total
 }
 
-fn check_ledger(h: &History, rec: &mut Rec, kf_open: bool) -> Result<(), String> {
+fn check_ledger(h: &History, rec: &mut Rec, kf_open: bool, kf2_open: bool) -> Result<(), String> {
     let mut w = World::new(&h.cfg, h.prices);
     let mut ledger = Ledger::default();
     let mut ops: Vec<Op> = vec![];
@@ -365,10 +365,13 @@ fn check_ledger(h: &History, rec: &mut Rec, kf_open: bool) -> Result<(), String>
     }
     ops.extend(h.ops.iter().cloned());
     let mut shortfall_total = [BigInt::zero(), BigInt::zero()];
+    // tokens credited to pools without being collected (KF-C08-2), per token
+    let mut dust_total = [BigInt::zero(), BigInt::zero()];
     let (mut funding_paid, mut funding_claimed) = (false, false);
     for (step, op) in ops.iter().enumerate() {
         let r_before: Vec<BigInt> = [true, false].iter().map(|t| &ledger.inflow[idx(*t)] - &ledger.outflow[idx(*t)] - holdings(&w, *t)).collect();
         let shortfalls_before = w.market.shortfalls.len();
+        let pools_before = format!("liq {:?} imp {:?} fee {:?} coll {:?}", w.market.primary, w.market.swap_impact, w.market.fee, w.market.collateral_sum);
         let out = w.apply(op);
         // expected change of the residual per token
         let mut expected = [BigInt::zero(), BigInt::zero()];
@@ -441,20 +444,38 @@ fn check_ledger(h: &History, rec: &mut Rec, kf_open: bool) -> Result<(), String>
                     return Err(format!("step {step} ({op:?}): {tok}-token holdings changed by {delta} more than tokens paid in minus paid out"));
                 }
             } else if delta != expected[idx(t)] {
+                // KF-C08-2: when a decrease exhausts the collateral, the remaining cost is converted
+                // into the secondary (pnl) token rounding DOWN; a remainder worth less than one
+                // secondary-token unit is treated as paid and the fee/pnl amount is credited to the
+                // pools although it was never collected (same arithmetic as GMX payForCost).
+                let gap = &expected[idx(t)] - &delta; // tokens credited without being collected
+                let dust_bound = {
+                    let (pc, po) = if t { (w.prices.long.0, w.prices.short.0) } else { (w.prices.short.0, w.prices.long.0) };
+                    b(po / pc.max(1) + 2)
+                };
+                let is_dust = matches!(&out, Outcome::Decrease { pos, .. } if { let (l, c) = position_sides(*pos); l != c && c == t })
+                    && gap.is_positive()
+                    && gap <= dust_bound;
+                if is_dust && kf2_open {
+                    rec.excluded("KF-C08-2");
+                    dust_total[idx(t)] += gap;
+                    continue;
+                }
                 let detail = match &out {
                     Outcome::Decrease { report, .. } => format!("{report:?}"),
                     Outcome::Increase { report, .. } => format!("{report:?}"),
                     _ => String::new(),
                 };
-                return Err(format!("step {step} ({op:?}): {tok}-token residual changed by {delta}, expected funding paid - claimable paid out = {}; report: {detail}", expected[idx(t)]));
+                let pools_after = format!("liq {:?} imp {:?} fee {:?} coll {:?}", w.market.primary, w.market.swap_impact, w.market.fee, w.market.collateral_sum);
+                return Err(format!("step {step} ({op:?}): {tok}-token residual changed by {delta}, expected funding paid - claimable paid out = {}; BEFORE {pools_before}; AFTER {pools_after}; report: {detail}", expected[idx(t)]));
             }
-            if &r_after + &shortfall_total[idx(t)] < zero() {
+            if &r_after + &shortfall_total[idx(t)] + &dust_total[idx(t)] < zero() {
                 // KF-C08-1: claimable funding is credited to receivers when the funding state is
                 // updated, while payers are charged only when their own position is next touched.
                 // Tightened bound: the residual plus the funding fees still owed by open positions
                 // (payable from their collateral) plus reported shortfalls is never negative.
                 let owed = pending_funding_owed(&w, t);
-                if &r_after + &shortfall_total[idx(t)] + &owed < zero() {
+                if &r_after + &shortfall_total[idx(t)] + &dust_total[idx(t)] + &owed < zero() {
                     return Err(format!("step {step}: {tok}-token funding residual {r_after} is negative beyond the funding still owed by open positions ({owed}) and reported shortfalls ({})", shortfall_total[idx(t)]));
                 }
                 if kf_open {
@@ -487,11 +508,32 @@ pub fn run_c08(ctx: &mut Ctx) {
             ],
         };
         let mut rec = Rec::default();
-        let r = check_ledger(&h, &mut rec, false);
+        let r = check_ledger(&h, &mut rec, false, true);
         ctx.known_witness("KF-C08-1", r.is_err(), "claimable funding is paid out to the receiving side (short position touched after 1 h) before the paying long position has been charged: tokens paid out exceed tokens paid in minus accounted holdings until the payer is next updated");
     }
+    let kf2 = ctx.finding_open("KF-C08-2");
+    {
+        let h = History {
+            cfg: CfgSpec::default(),
+            prices: PricesSpec { index: (8_148_346_409_984, 8_175_280_394_204), long: (8_148_346_409_984, 8_175_280_394_204), short: (98_000_000_000_000, 98_000_000_000_000) },
+            seed_liquidity: (100_000_000_000, 10_000_000_000),
+            ops: vec![
+                Op::Increase { pos: 5, collateral: 111, size_usd: 5 },
+                Op::MovePrice { bp: -70, index_only: false },
+                Op::MovePrice { bp: 480, index_only: true },
+                Op::MovePrice { bp: 1480, index_only: false },
+                Op::Decrease { pos: 5, size_bp: 1, withdraw_bp: 0, cap: false, swap: 0, insolvent_ok: false },
+            ],
+        };
+        let mut cfg = h.clone();
+        cfg.cfg.min_position_size_usd = 0;
+        cfg.cfg.min_collateral_value = 0;
+        let mut rec = Rec::default();
+        let r = check_ledger(&cfg, &mut rec, true, false);
+        ctx.known_witness("KF-C08-2", r.is_err(), "closing a dust short position (111 long-token units of collateral) whose loss consumes all collateral credits 112 units to the liquidity pool: the 1-unit order fee is converted to the secondary token rounding down to 0, treated as paid and credited although nothing was collected");
+    }
     let n = ctx.cases(15_000, 750_000);
-    ctx.search("ledger", n, || position_heavy(35), move |h, rec| check_ledger(h, rec, kf));
+    ctx.search("ledger", n, || position_heavy(35), move |h, rec| check_ledger(h, rec, kf, kf2));
     ctx.floor("ledger:funding_paid", 500);
     ctx.floor("ledger:funding_claimed", 300);
 }
